@@ -15,7 +15,10 @@ Inductive ccase :=
 | KLanguages (langs : list str) (impl : list str)                  (* Flow.Localization().Languages() *)
 | KLuis (intents : list (str * N)) (impl : list str)               (* luis Classify: intent names in result order; score * 1000 *)
 | KWit (entities : list (str * N)) (impl : list (str * N))         (* wit Classify: entity name -> value id, in name order *)
-| KDtone (amounts : list (str * (N * bool))) (impl : option str).  (* dtone Transfer: chosen currency; bool = a product matches *)
+| KDtone (amounts : list (str * (N * bool))) (impl : option str)   (* dtone Transfer: chosen currency; bool = a product matches *)
+| KFields (fields : list (str * (str * option str))) (impl : str)  (* FieldValues.Context()["__default__"]; key -> (field name, text value) *)
+| KLegacy (results : list (str * (N * list (str * str)))) (key : str) (impl : option str).
+                                                                   (* @legacy_extra.<key> after re-reading the session; result key -> (created_on, extra) *)
 
 Fixpoint strs_eqb (a b : list str) : bool :=
   match a, b with
@@ -47,6 +50,13 @@ Fixpoint pairs_eqb (a b : list (str * N)) : bool :=
   | _, _ => false
   end.
 
+Definition opt_str_eqb (a b : option str) : bool :=
+  match a, b with
+  | Some x, Some y => str_eqb x y
+  | None, None => true
+  | _, _ => false
+  end.
+
 Definition check (c : ccase) : bool :=
   match c with
   | KProps entries impl => strs_eqb (xobject_properties entries) impl
@@ -68,6 +78,17 @@ Definition check (c : ccase) : bool :=
       | None, None => true
       | _, _ => false
       end
+  | KFields fields impl =>
+      match lookup str_eqb default_key
+              (field_values_context (fun v : str * option str => snd v) fst (fun x : str => x) (fun t : str => t) fields) with
+      | Some (Some text) => str_eqb text impl
+      | _ => false
+      end
+  | KLegacy results key impl =>
+      opt_str_eqb (lookup str_eqb key
+                     (legacy_add_results (fun s => s) []
+                        (map (fun kv => (fst kv, {| r_name := fst kv; r_value := []; r_created := fst (snd kv);
+                                                   r_extra := Some (snd (snd kv)) |})) results))) impl
   end.
 
 Fixpoint mismatches_from (i : N) (cs : list ccase) : list N :=
